@@ -138,7 +138,11 @@ def declare(master, slave, rel):
     elif rel['type'] == 'gear':
         ut.add_gear_mating(master=master, slave=slave, efficiency=rel['eff'])
     else:
-        ut.add_worm_gear_mating(master=master, slave=slave, friction_coefficient=rel['f'])
+        f = rel['f']
+        if rel.get('f_is_threshold'):
+            wg = master if isinstance(master, g().mo.WormGear) else slave
+            f = wg.pressure_angle.cos() * wg.helix_angle.tan()          # the user computes the threshold from the worm's own angles
+        ut.add_worm_gear_mating(master=master, slave=slave, friction_coefficient=f)
 
 
 def make_load(b, load):
